@@ -1017,13 +1017,14 @@ def exhaustive_plan(calls, ns, f):
     n = sum(ns)
     if not f:
         cs = [c for c in calls if c[0] == "c"]
-        sizes = [len(c[1]) for c in cs]
+        # entries of negligible weight (an exact 0 that came out as 1e-16 in floats) are not forced
+        live = [[i for i, w in enumerate(c[2]) if w > 1e-12 * sum(c[2])] for c in cs]
         total = 1
-        for z in sizes:
-            total *= z
-        if total > EXH_LIMIT or any(z == 0 for z in sizes):
+        for z in live:
+            total *= len(z)
+        if total > EXH_LIMIT or any(len(z) == 0 for z in live):
             return None
-        combos = list(itertools.product(*[range(z) for z in sizes]))
+        combos = list(itertools.product(*live))
         probs = []
         for cb in combos:
             w = 1.0
@@ -1067,21 +1068,32 @@ def lean_replay(chk, P, ns, f, t, k, calls):
         def ask(idx):
             return chk.lean.ask({"op": "replay_nf", "P": lean_P(P), "ns": ns, "t": t, "k": k, "calls": idx})
         rep = ask([c[3] for c in cs])
+        idx, changed = [], False
+        if "bad-draw: index" in rep.get("err", ""):    # a negligible extra entry in the code's population: probe
+            rep = ask([[0] * len(c[3]) for c in cs])
+            changed = True
         if "err" in rep:
             return rep, None
-        idx, changed = [], False
         for j, (c, mc) in enumerate(zip(cs, rep["calls"])):
             real = [one_class(bs_modes(b)[0]) for b in c[1]]
             mod = [one_class(m) for m, _ in mc]
-            if sorted(real) != sorted(mod) or len(set(real)) != len(real):
+            tot = sum(c[2])
+            rw, mw = {}, {}
+            for cl, w in zip(real, c[2]):
+                rw[cl] = rw.get(cl, 0.0) + w / tot
+            for cl, (_, p) in zip(mod, mc):
+                mw[cl] = mw.get(cl, 0.0) + float(F(p))
+            # an entry present on one side only is a disagreement only if its weight is not negligible (the code
+            # keeps an entry when its FLOAT probability is > 0: an exact 0 may come out as 1e-16)
+            for cl in set(rw) | set(mw):
+                if not core.close(rw.get(cl, 0.0), mw.get(cl, 0.0)):
+                    return None, ("model-vs-code:sampler-weights" if cl in rw and cl in mw else
+                                  "model-vs-code:sampler-population",
+                                  f"bsd.sample call {j}: one-photon state class {cl} has weight {rw.get(cl, 0.0)!r}, model "
+                                  f"{mw.get(cl, 0.0)!r} (states {[bs_modes(b)[0] for b in c[1]]}, model {[m for m, _ in mc]})")
+            if len(set(real)) != len(real) or any(real[i] not in mw for i in c[3]):
                 return None, ("model-vs-code:sampler-population",
                               f"bsd.sample call {j}: states {[bs_modes(b)[0] for b in c[1]]}, model {[m for m, _ in mc]}")
-            tot = sum(c[2])
-            for i, cl in enumerate(real):
-                mp = float(F(mc[mod.index(cl)][1]))
-                if not core.close(c[2][i] / tot, mp):
-                    return None, ("model-vs-code:sampler-weights",
-                                  f"bsd.sample call {j}, state {bs_modes(c[1][i])[0]}: weight {c[2][i] / tot!r}, model {mp!r}")
             changed = changed or real != mod
             idx.append([mod.index(real[i]) for i in c[3]])
         if changed:
@@ -2370,7 +2382,7 @@ def run(chk: core.Check):
                     case["prior"] = {"ns": ns + [1], "f": f, "cache": rng.random() < 0.3}
             cases.append(case)
     # 8. the sampler as a function of its draws: recorded run replayed through the model, all draws forced
-    kd = chk.pick(24, 150)
+    kd = chk.pick(24, 50)
     for il, (cell, P) in enumerate(lat):
         ns = [[1, 1], [2], [1, 0, 1], [2, 1]][il % 4]
         cases.append({"kind": "draws", "P": P, "ns": ns, "f": 0, "k": kd, "seed": rng.randrange(1 << 30),
@@ -2385,18 +2397,19 @@ def run(chk: core.Check):
     for name in ("pd-dist", "pd-indist", "nonpd-g2", "pd-dist-I1", "no-loss-g2", "r-zero", "r-zero-indist", "q-zero",
                  "hom-only", "loss-only", "perfect"):
         P = FIXED[name]
-        for ns, f, exh in (([2, 2], 0, False), ([1, 1, 1, 1], 2, chk.pick(False, True)), ([3, 1], 3, False),
+        for ns, f, exh in (([2, 2], 0, False), ([1, 1, 1, 1], 2, chk.thorough and name in ("pd-dist", "pd-indist")),
+                           ([3, 1], 3, False),
                            ([0, 2, 0, 1], 1, True), ([1, 2], 0, True), ([3], 5, True), ([1], 3, True)):
-            cases.append({"kind": "draws", "P": P, "ns": ns, "f": f, "k": chk.pick(40, 300),
+            cases.append({"kind": "draws", "P": P, "ns": ns, "f": f, "k": chk.pick(40, 100),
                           "seed": rng.randrange(1 << 30), "pre": rng.choice([0, 1, 3]), "exh": exh})
-    for _ in range(chk.pick(24, 400)):
+    for _ in range(chk.pick(24, 160)):
         P = rand_params(rng)
         m = rng.randint(1, 4)
         ns = [rng.randint(0, 2) for _ in range(m)]
         while sum(ns) > 5:
             ns[rng.randrange(m)] = 0
         f = rng.choice([0, 0, 1, 2, 3, sum(ns), 2 * sum(ns) + 1])
-        case = {"kind": "draws", "P": P, "ns": ns, "f": f, "k": chk.pick(30, 120), "seed": rng.randrange(1 << 30),
+        case = {"kind": "draws", "P": P, "ns": ns, "f": f, "k": chk.pick(30, 50), "seed": rng.randrange(1 << 30),
                 "pre": rng.choice([0, 0, 2]), "exh": sum(ns) <= 3}
         if f and rng.random() < 0.4 and filter_reachable(P, sum(ns), f):
             case["prior"] = [{**q, "cache": rng.random() < 0.3}
